@@ -1,11 +1,208 @@
 /-
-  C06 — property theorems only (placeholder until the refinement proof lands).
+  C06 — `$dynamicRef` goes to the OUTERMOST schema resource of the dynamic scope that declares the dynamic anchor,
+  falls back to the initial (lexical) target, behaves like `$ref` when that target carries no dynamic anchor;
+  the evaluator's stack walk computes exactly that; a `Validate` call has no memory of earlier calls.
+  Property theorems only (helper lemmas: JSV/Proofs/InvDyn.lean).
 -/
-import JSV.Model.Validate
+import JSV.Proofs.InvDyn
+import JSV.Props.C01
 namespace JSV.C06
-open JSV Go
+open JSV Go GoVal Refine
 
-theorem validateFuel_zero (env : VEnv) (stack : List NodeId) (i : GoVal) (s : NodeId) :
-    validateFuel env 0 stack i s = .fuel := rfl
+/-- the schema bearing `$dynamicAnchor: name` in the schema resource scope entry `x` belongs to (if any) -/
+abbrev decl (env : Spec.Env) (name : String) (x : NodeId) : Option NodeId :=
+  (env.resource x).bind (env.dynDecl · name)
+
+/-! ## the Spec's dynamic-scope rule -/
+
+/-- `Spec.dynTarget` returns the declaration of the OUTERMOST scope entry whose resource declares the name -/
+theorem dynamicRef_outermost (env : Spec.Env) (name : String) (scope pre post : List NodeId) (s t : NodeId)
+    (hsc : scope = pre ++ s :: post) (hpre : ∀ x ∈ pre, decl env name x = none) (hs : decl env name s = some t) :
+    Spec.dynTarget env scope name = some t := by
+  rw [Inv.dynTarget_eq_findSome]
+  exact List.findSome?_eq_some_iff.2 ⟨pre, s, post, hsc, hs, hpre⟩
+
+/-- … and conversely: a target found is the declaration of an entry with no declaring entry outside it -/
+theorem dynamicRef_outermost_conv (env : Spec.Env) (name : String) (scope : List NodeId) (t : NodeId)
+    (h : Spec.dynTarget env scope name = some t) :
+    ∃ pre s post, scope = pre ++ s :: post ∧ decl env name s = some t ∧ ∀ x ∈ pre, decl env name x = none := by
+  rw [Inv.dynTarget_eq_findSome] at h
+  exact List.findSome?_eq_some_iff.1 h
+
+theorem dynamicRef_none_iff (env : Spec.Env) (name : String) (scope : List NodeId) :
+    Spec.dynTarget env scope name = none ↔ ∀ x ∈ scope, decl env name x = none := by
+  rw [Inv.dynTarget_eq_findSome]
+  exact List.findSome?_eq_none_iff
+
+/-- entering more schemas (a longer scope on the inside) never changes a target already determined -/
+theorem dynamicRef_inner_irrelevant (env : Spec.Env) (name : String) (scope inner : List NodeId) (t : NodeId)
+    (h : Spec.dynTarget env scope name = some t) : Spec.dynTarget env (scope ++ inner) name = some t := by
+  obtain ⟨pre, s, post, hsc, hs, hpre⟩ := dynamicRef_outermost_conv env name scope t h
+  exact dynamicRef_outermost env name _ pre (post ++ inner) s t (by simp [hsc]) hpre hs
+
+/-- no scope entry declares the name ⇒ `$dynamicRef` evaluates the initial target -/
+theorem dynamicRef_fallback (env : Spec.Env) (sub : NodeId → Json → Spec.Out) (scope : List NodeId) (s : NodeId)
+    (n : Node) (j : Json) (initial : NodeId) (hdr : n.dynamicRef ≠ "") (hi : env.dynInitial s = some initial)
+    (hno : ∀ x ∈ scope, decl env (env.dynName s) x = none) :
+    Spec.kwDynamicRef env sub scope s n j = sub initial j := by
+  have h0 : Spec.dynTarget env scope (env.dynName s) = none := (dynamicRef_none_iff env _ scope).2 hno
+  unfold Spec.kwDynamicRef
+  have h1 : (n.dynamicRef != "") = true := by simp [hdr]
+  simp only [h1, if_true, hi, h0, Option.getD_none, ite_self]
+
+/-- some scope entry declares the name ⇒ `$dynamicRef` evaluates the outermost declaration -/
+theorem dynamicRef_dynamic (env : Spec.Env) (sub : NodeId → Json → Spec.Out) (scope pre post : List NodeId)
+    (s x t : NodeId) (n : Node) (j : Json) (initial : NodeId) (hdr : n.dynamicRef ≠ "")
+    (hi : env.dynInitial s = some initial) (hname : env.dynName s ≠ "")
+    (hsc : scope = pre ++ x :: post) (hpre : ∀ y ∈ pre, decl env (env.dynName s) y = none)
+    (hx : decl env (env.dynName s) x = some t) :
+    Spec.kwDynamicRef env sub scope s n j = sub t j := by
+  have h0 := dynamicRef_outermost env (env.dynName s) scope pre post x t hsc hpre hx
+  unfold Spec.kwDynamicRef
+  have h1 : (n.dynamicRef != "") = true := by simp [hdr]
+  have h2 : (env.dynName s == "") = false := by simp [hname]
+  simp only [h1, if_true, hi, h0, h2, Bool.false_eq_true, if_false, Option.getD_some]
+
+/-- the initial target carries no matching `$dynamicAnchor` ⇒ `$dynamicRef` behaves like `$ref` to that target -/
+theorem dynamicRef_lexical (env : Spec.Env) (sub : NodeId → Json → Spec.Out) (scope : List NodeId) (s : NodeId)
+    (n : Node) (j : Json) (h : env.dynName s = "") :
+    Spec.kwDynamicRef env sub scope s n j = Spec.inPlace sub (n.dynamicRef != "") (env.dynInitial s) j := by
+  unfold Spec.kwDynamicRef Spec.inPlace
+  simp only [h, beq_self_eq_true, if_true]
+  split
+  · cases env.dynInitial s <;> rfl
+  · rfl
+
+/-! ## the evaluator's stack walk -/
+
+/-- the stack walk of `(*state).resolveDynamicRef` computes the Spec's `dynTarget` of the stack (under the invariants
+    Resolve establishes, and for stacks whose entries have resolution records) -/
+theorem model_dynLookup_eq_spec (env : VEnv) (hwf : EnvWF env) (name : String) (stack : List NodeId)
+    (hstack : ∀ x, x ∈ stack → (env.info? x).isSome = true) :
+    Go.dynLookup env name stack = .ok (Spec.dynTarget (specEnvOf env) stack name) :=
+  Refine.dynLookup_eq env hwf name stack hstack
+
+/-- hence: it returns the declaration of the outermost stack entry whose base resource declares the anchor -/
+theorem model_dynLookup_outermost (env : VEnv) (hwf : EnvWF env) (name : String) (stack pre post : List NodeId)
+    (s t : NodeId) (hstack : ∀ x, x ∈ stack → (env.info? x).isSome = true)
+    (hsc : stack = pre ++ s :: post) (hpre : ∀ x ∈ pre, decl (specEnvOf env) name x = none)
+    (hs : decl (specEnvOf env) name s = some t) :
+    Go.dynLookup env name stack = .ok (some t) := by
+  rw [model_dynLookup_eq_spec env hwf name stack hstack,
+      dynamicRef_outermost (specEnvOf env) name stack pre post s t hsc hpre hs]
+
+/-- the `$dynamicRef` block is one in-place application, to the Spec's target -/
+theorem model_dynamicRef_target (env : VEnv) (hwf : EnvWF env) (rec : Go.Rec) (stack : List NodeId)
+    (hstack : ∀ x, x ∈ stack → (env.info? x).isSome = true) (n : Node) (i : Info) (initial : NodeId)
+    (hdr : n.dynamicRef ≠ "") (hres : i.resolvedDynamicRef = some initial) (inst : GoVal) (anns : Anns) :
+    Go.bDynamicRef env rec stack n (some i) inst anns =
+      Go.mustValid rec stack inst
+        (if i.dynamicRefAnchor = "" then initial
+         else (Spec.dynTarget (specEnvOf env) stack i.dynamicRefAnchor).getD initial) anns :=
+  Inv.bDynamicRef_target env hwf rec stack hstack n i initial hdr hres inst anns
+
+/-! ## no history -/
+
+/-- the result of `Validate` is a function of (resolved schema, supported versions, fuel, root, instance) only:
+    the model threads no state from one call to the next (the Go `state` is allocated per call; `st.stack` is the
+    only field written, `Generated.writes`) -/
+theorem validate_history_free (env : VEnv) (supported : List String) (fuel : Nat) (root : NodeId) (i1 i2 : GoVal)
+    (h : i1 = i2) : Go.validate env supported fuel root i1 = Go.validate env supported fuel root i2 := by
+  rw [h]
+
+/-- a sequence of calls: splitting the sequence anywhere gives the same results … -/
+theorem validate_seq_append (env : VEnv) (supported : List String) (fuel : Nat) (root : NodeId) (xs ys : List GoVal) :
+    List.map (Go.validate env supported fuel root) (xs ++ ys)
+      = List.map (Go.validate env supported fuel root) xs ++ List.map (Go.validate env supported fuel root) ys :=
+  List.map_append
+
+/-- … each result equals that of the single call, whatever was validated before or after … -/
+theorem validate_seq_get (env : VEnv) (supported : List String) (fuel : Nat) (root : NodeId) (insts : List GoVal)
+    (k : Nat) (hk : k < insts.length) :
+    (List.map (Go.validate env supported fuel root) insts)[k]'(by simpa using hk)
+      = Go.validate env supported fuel root insts[k] := by
+  simp
+
+theorem validate_seq_mid (env : VEnv) (supported : List String) (fuel : Nat) (root : NodeId)
+    (before after : List GoVal) (x : GoVal) :
+    (List.map (Go.validate env supported fuel root) (before ++ x :: after))[before.length]? =
+      some (Go.validate env supported fuel root x) := by
+  simp
+
+/-- … and reordering the calls reorders the results the same way -/
+theorem validate_seq_perm (env : VEnv) (supported : List String) (fuel : Nat) (root : NodeId) (xs ys : List GoVal)
+    (h : xs.Perm ys) :
+    (List.map (fun x => (x, Go.validate env supported fuel root x)) xs).Perm
+      (List.map (fun x => (x, Go.validate env supported fuel root x)) ys) :=
+  h.map _
+
+/-- the same instance validated twice gets the same result twice (no caching effect, no leftover stack) -/
+theorem validate_twice (env : VEnv) (supported : List String) (fuel : Nat) (root : NodeId) (x : GoVal)
+    (between : List GoVal) :
+    (List.map (Go.validate env supported fuel root) (x :: between ++ [x])).head? =
+      (List.map (Go.validate env supported fuel root) (x :: between ++ [x])).getLast? := by
+  rw [List.map_append, List.map_cons, List.map_cons, List.map_nil, List.getLast?_concat]
+  rfl
+
+/-! ## The statements are not vacuous: the "generic list" pattern
+
+Resource `root` (node 0): `{"$id":"root","$ref":"list","$defs":{"elem":{"$dynamicAnchor":"itemType","type":"string"}}}`
+Resource `list` (node 2): `{"$id":"list","items":{"$dynamicRef":"#itemType"},"$defs":{"any":{"$dynamicAnchor":"itemType"}}}`
+Entered through `root`, the items must be strings; entered through `list` directly, anything goes. -/
+
+def exStore : Store := #[
+  { id := "root", ref := "list", defs := some [("elem", 1)] },
+  { dynamicAnchor := "itemType", type := "string" },
+  { id := "list", items := some 3, defs := some [("any", 4)] },
+  { dynamicRef := "#itemType" },
+  { dynamicAnchor := "itemType" } ]
+
+def exInfos : List (NodeId × Info) :=
+  [(0, { path := "root", base := some 0, resolvedRef := some 2,
+         anchors := [("itemType", { schema := 1, dynamic := true })] }),
+   (1, { base := some 0 }),
+   (2, { base := some 2, anchors := [("itemType", { schema := 4, dynamic := true })] }),
+   (3, { base := some 2, resolvedDynamicRef := some 4, dynamicRefAnchor := "itemType" }),
+   (4, { base := some 2 })]
+
+def exEnv : VEnv :=
+  { st := exStore, draft := .d2020, infos := exInfos, reMatch := fun _ _ => false, hash := fun _ => 0 }
+
+theorem exEnv_wf : EnvWF exEnv := EnvWF_of_checks exEnv (by decide) (by decide) (fun _ _ _ => rfl)
+theorem exEnv_store : StoreWF exEnv.st := StoreWF_of_check _ (by decide)
+
+/-- the scope when the `$dynamicRef` at node 3 is evaluated, coming from `root`: both resources declare the anchor,
+    the outermost one (`root`, entry 0) wins -/
+example : Spec.dynTarget (specEnvOf exEnv) [0, 2, 3] "itemType" = some 1 :=
+  dynamicRef_outermost (specEnvOf exEnv) "itemType" [0, 2, 3] [] [2, 3] 0 1 rfl (fun _ h => nomatch h) (by decide)
+/-- coming from `list` directly, only `list` declares it -/
+example : Spec.dynTarget (specEnvOf exEnv) [2, 3] "itemType" = some 4 :=
+  dynamicRef_outermost (specEnvOf exEnv) "itemType" [2, 3] [] [3] 2 4 rfl (fun _ h => nomatch h) (by decide)
+/-- a name nobody declares -/
+example : Spec.dynTarget (specEnvOf exEnv) [0, 2, 3] "other" = none :=
+  (dynamicRef_none_iff _ _ _).2 (by decide)
+/-- `model_dynLookup_eq_spec` applied, and the same by running the model -/
+example : Go.dynLookup exEnv "itemType" [0, 2, 3] = .ok (Spec.dynTarget (specEnvOf exEnv) [0, 2, 3] "itemType") :=
+  model_dynLookup_eq_spec exEnv exEnv_wf "itemType" [0, 2, 3] (by decide)
+example : Go.dynLookup exEnv "itemType" [0, 2, 3] = .ok (some 1) := by decide
+example : Go.dynLookup exEnv "itemType" [2, 3] = .ok (some 4) := by decide
+
+/-- the verdicts: `[1]` is rejected through `root` (items must be strings), accepted through `list` -/
+example : Spec.valid (specEnvOf exEnv) 4 0 (.arr [.num 1]) = some false := by decide
+example : Spec.valid (specEnvOf exEnv) 4 0 (.arr [.str "a"]) = some true := by decide
+example : Spec.valid (specEnvOf exEnv) 4 2 (.arr [.num 1]) = some true := by decide
+example : Go.validate exEnv [""] 4 0 (GoVal.ofJson (.arr [.num 1])) = .err := by decide
+example : Go.validate exEnv [""] 4 0 (GoVal.ofJson (.arr [.str "a"])) = .ok () := by decide
+example : Go.validate exEnv [""] 4 2 (GoVal.ofJson (.arr [.num 1])) = .ok () := by decide
+
+/-- no history: validating through `root` in between does not make the later direct call stricter -/
+example : List.map (Go.validate exEnv [""] 4 2) [GoVal.ofJson (.arr [.num 1]), GoVal.ofJson (.arr [.str "a"]),
+    GoVal.ofJson (.arr [.num 1])] = [.ok (), .ok (), .ok ()] := by decide
+
+/-- `dynamicRef_lexical`: with the anchor name cleared in the resolution record the keyword is a plain reference -/
+example (sub : NodeId → Json → Spec.Out) (j : Json) :
+    Spec.kwDynamicRef { specEnvOf exEnv with dynName := fun _ => "" } sub [0, 2, 3] 3 { dynamicRef := "#itemType" } j
+      = sub 4 j := by
+  rw [dynamicRef_lexical _ _ _ _ _ _ rfl]; rfl
 
 end JSV.C06
